@@ -259,6 +259,24 @@ func (s *Syncer[H]) findTailHeight(ctx context.Context, oldTail, head H) (uint64
 	)
 
 	newTailHeight := estimatedTailHeight
+	for newTailHeight > oldTail.Height() && newTailHeight-1 <= s.store.Height() {
+		// the estimation overshoots when headers are produced faster than the block time suggests,
+		// so walk back until the header right below the new tail is out of the window
+		belowTail, err := s.store.GetByHeight(ctx, newTailHeight-1)
+		if err != nil {
+			return 0, fmt.Errorf(
+				"getting header below estimated new tail(%d) from store: %w",
+				estimatedTailHeight,
+				err,
+			)
+		}
+
+		if expectedTailTime.Compare(belowTail.Time().UTC()) > 0 {
+			break
+		}
+
+		newTailHeight--
+	}
 	for newTailHeight > oldTail.Height() && newTailHeight < s.store.Height() {
 		// store keeps all the headers up to the current head
 		// iterate over the headers and find the most accurate tail
